@@ -15,7 +15,7 @@ LEVEL = {
          "which combinator BooleanWeight picks, term dictionaries / automata, real segments and collectors are outside"),
  "C05": ("M+K", "z3 over the MIR: the reader resolves meta.json and opens every segment file inside the META_LOCK window GC also takes, publishes a searcher only after a complete load, and opens all components eagerly; CBMC: OwnedBytes views are stable.",
          "arc-swap atomicity, mmap page cache and real interleavings are reduced to lock-window obligations; the lock itself is C18"),
- "C06": ("K", "CBMC on the compiled collectors: TopNComputer and TopNHeap return exactly the best K with the address tie-break for every key sequence within the bounds (concrete K per harness), thresholds never reject a top-K member, block-max metadata is an upper bound; merge_top_k in the thorough tier.",
+ "C06": ("K+M", "CBMC on the compiled collectors: TopNComputer and TopNHeap return exactly the best K with the address tie-break for every key sequence within the bounds (concrete K per harness), thresholds never reject a top-K member, block-max metadata is an upper bound; z3 over the MIR: merge_top_k pushes in address order, the pruning paths are preceded by their guards, and the guards (executed as bit-vector programs) pass only for scorers that read frequencies.",
          "block-WAND loops over real postings, executors and sort-key extraction are outside; K and the number of pushes are small and concrete"),
  "C07": ("K", "Codec level, CBMC: VInt family, posting-tail VInt, skip list write -> read -> seek for the three record options, in-block search (all sorted 128-arrays), field-norm code, bit-packer widths; term-key equality and arena copy of the indexing hash map (stacker fastcmp / fastcpy) for keys <= 40 / 70 bytes with memory-safety checks.",
          "fst dictionary, the arena hash map as a whole, SegmentWriter end-to-end, 128-value SIMD blocks and lists longer than 2 blocks + tail are outside"),
@@ -25,13 +25,13 @@ LEVEL = {
          "inventory liveness under real schedules and 'no orphan after any history' are data-level statements outside the encoding"),
  "C11": ("M", "z3 over the MIR: for each storage-touching call on the commit / purge / merge / worker paths, the Err branch reaches the caller (or the merge future) and nothing after a failed step touches meta.json; in-memory meta only follows a successful write; no Result is dropped unexamined and no I/O-carrying Result goes through an error-erasing adapter (ok / unwrap_or* / flatten / filter_map ...) on these paths outside a justified allow-list (per-function scans).",
          "a fault at every operation of a whole workload on every thread, abort / hang freedom and recovery are outside"),
- "C12": ("K", "Arithmetic level, CBMC with IEEE f32: tf-factor range / monotonicity / antitonicity, cache component monotonicity, boost multiplication, idf argument domain, combiners, field-norm quantisation.",
+ "C12": ("K+M", "Arithmetic level, CBMC with IEEE f32: tf-factor range / monotonicity / antitonicity, cache component monotonicity, boost multiplication, idf argument domain, combiners, field-norm quantisation; z3 over the MIR of the merger: a source segment's token count is only estimated under has_deletes() = true (exact otherwise).",
          "ln is not modelled (idf is an uninterpreted finite input); statistics over segments and explain() strings are outside"),
  "C13": ("K+M", "CBMC: for each DocSet type built over symbolic leaves, every program of 2 (quick) / 3 (thorough) calls over {advance, seek(t)} (plus fill_buffer / fill_bitset_block / count in the thorough tier) observes the sorted sequence of the type's set semantics, seek(t) = first doc >= t, TERMINATED is sticky, score independent of the access path; phrase / phrase-prefix scorers over array postings; BufferedUnionScorer across a window refill from a fixed reachable state (assume-guarantee cut: two fill_buffer calls -> link state -> advance); z3 over the MIR of fill_buffer: every document handed out releases its score slot.",
          "leaves <= 3 docs, programs <= 3 calls; postings-backed scorers on real segments, BufferedUnionScorer programs starting at build() and its scores as values are outside (measured: 50 GB)"),
  "C15": ("K", "Kernel level, CBMC: sstable VInt, common prefix, separator-key contract and refusal of unordered pairs across block boundaries, order enforcement of Writer::insert_key, block selection of Dictionary::file_slice_for_range (with limit) on a v2 block index written down directly.",
          "block decoding / streaming, merges, the fst-based v3 index and automata are outside (measured infeasible)"),
- "C17": ("K", "Kernel level, CBMC: DocIdMapping inverse / remap on all permutations of 4, permutation validation, order-independence of the delete rule.",
+ "C17": ("K+M", "Kernel level, CBMC: DocIdMapping inverse / remap on all permutations of 4, permutation validation, order-independence of the delete rule; z3 + cvc5 over the columnar crate's MIR: the u64 key a fresh segment is sorted by preserves the order of i64 / u64 values (all pairs).",
          "IndexMerger sort paths and per-structure remaps need segment readers and are outside"),
  "C18": ("K+M", "CBMC: the default lock implementation as a state machine (at most one live guard, acquire Ok iff free, failed acquire changes nothing); z3 over MIR: writer creation acquires INDEX_WRITER_LOCK before IndexWriter::new, rollback moves the guard without re-acquiring or dropping.",
          "flock semantics, RamDirectory (HashMap) and racing creations are reduced to the create-new assumption"),
